@@ -236,6 +236,19 @@ theorem nested_class_witness :
     varOf witnessNestedClass 4 = 0 ∧ varOf witnessNestedClass 2 = 1 := by decide
 
 open Kind Role in
+/-- `a = 0` / `class K:` / `    a = 0` / `    class L:` / `        [a for b in [0]]`: both of the
+above combined -/
+def witnessCompInNestedClass : Prog :=
+  { scopes := [⟨module, 0⟩, ⟨klass, 0⟩, ⟨klass, 1⟩, ⟨comp, 2⟩],
+    occs := [⟨0, bind, 0, 0⟩, ⟨1, defName, 0, 1⟩, ⟨0, bind, 1, 2⟩, ⟨2, defName, 1, 3⟩,
+             ⟨0, use, 3, 4⟩, ⟨3, bind, 3, 5⟩] }
+
+theorem comp_in_nested_class_witness :
+    WF witnessCompInNestedClass = true ∧ goto witnessCompInNestedClass 4 = [2] ∧
+    varOf witnessCompInNestedClass 4 = 0 ∧ varOf witnessCompInNestedClass 2 = 1 ∧
+    CoveredUse witnessCompInNestedClass 4 = false := by decide
+
+open Kind Role in
 /-- `a = 0` / `def f():` / `    a = 0` / `    class K:` / `        a` / `        a = 0` / `f()`:
 `a` is assigned in the class body, so the use is a `LOAD_NAME` that skips `f`'s local and reads
 the module's `a`; jedi lands on `f`'s local -/
